@@ -5,6 +5,7 @@ CLASSES = {
   'MessageDispatcher': dict(path='MessageDispatcher', bases=['ClientMessageSink'], fields={
     '_open_ar': 'AsyncResult?', '_dispatch_timeout': 'real?', '_service': 'any', '_name': 'any'}),
   '_AsyncResponseSink': dict(path='_AsyncResponseSink', bases=['ClientMessageSink'], fields={}),
+  'ScalesError': dict(path='ScalesError', bases=[], fields={'inner_exception': 'any'}),
   # (source, start_time, ar, message properties): the context of the bottom stack entry
   'RespCtx': dict(extern=True, path=None, bases=[], listlike=['source', 'start_time', 'ar', 'props'],
                   fields={'source': 'Source?', 'start_time': 'real', 'ar': 'AsyncResult', 'props': 'Props'}),
@@ -18,10 +19,19 @@ CLASSES = {
 
 FUNCTIONS = {
   # ---- exactly one completion of the caller's AsyncResult per invocation of the bottom entry
+  # what the caller is handed for an error reply: a timeout as it is; any other error wrapped in the library's ScalesError
+  # (carrying it as inner exception) exactly when a stack was recorded with it, else the error itself
   '_AsyncResponseSink._WrapException': dict(
-    cls=None, params={'msg': 'MethodReturnMessage'}, returns='any', trusted=True,
-    requires=[], ensures=['result is not None'], modifies=[], allocates=True,
-    notes='builds the exception object handed to the caller (ScalesError wrapping msg.error, or msg.error itself); contract under C14'),
+    cls=None, params={'msg': 'MethodReturnMessage'}, returns='any',
+    requires=['allocated(msg)', 'msg.error is not None'],
+    ensures=['result is not None',
+             'implies(dyn_is(msg.error, TimeoutError), result == msg.error)',
+             'implies(not dyn_is(msg.error, TimeoutError) and truthy(msg.stack), tag_is(result, ScalesError) and cast(result, ScalesError).inner_exception == msg.error and fresh(result))',
+             'implies(not dyn_is(msg.error, TimeoutError) and not truthy(msg.stack), result == msg.error)'],
+    modifies=['ScalesError.inner_exception', '$cls'], allocates=True,
+    props=['C14', 'C01'],
+  ),
+  'ScalesError.__init__': dict(cls='ScalesError', inline=True),
   '_AsyncResponseSink.AsyncProcessResponse': dict(
     cls='_AsyncResponseSink',
     params={'sink_stack': 'ClientMessageSinkStack', 'context': 'RespCtx', 'stream': 'any', 'msg': 'Message?'},
@@ -32,7 +42,7 @@ FUNCTIONS = {
       'context.ar.g_sets == old(context.ar.g_sets) + 1',
       'forall_ref(a, AsyncResult, implies(a != context.ar, a.g_sets == old(a.g_sets)), a.g_sets)',
     ],
-    modifies=['AsyncResult.g_sets', 'AsyncResult.value', 'AsyncResult.exception', 'AsyncResult.g_ready', 'Source.method', 'Source.service', 'Source.endpoint', 'Source.client_id', '$cls'], allocates=True,
+    modifies=['ScalesError.inner_exception', 'AsyncResult.g_sets', 'AsyncResult.value', 'AsyncResult.exception', 'AsyncResult.g_ready', 'Source.method', 'Source.service', 'Source.endpoint', 'Source.client_id', '$cls'], allocates=True,
     props=['C01'],
   ),
   # ---- deadline arithmetic
